@@ -8,10 +8,11 @@ A SCENARIO is a small script, completely described by its case dict (explicit da
   2. collections are derived from x (and from the operands) BEFORE the in-place call: slices, x*2+1, x.copy(), flips,
      transposes, rechunks, reductions; optionally everything is computed once (warm caches);
   3. the in-place call: `f(a, b, out=x)`, `f(a, b, where=m, out=x)`, `f(x, where=m, out=x)` … for several binary and
-     unary ufuncs, `out=` given as keyword / 1-tuple / positionally, `np.f` and `da.f`; masks of every kind (NumPy array,
+     unary ufuncs, `out=` given as keyword / 1-tuple / positionally (also `da.f(a, b, x)`), `np.f` and `da.f`; masks of every kind (NumPy array,
      dask array with its own chunks, dask mask computed from x or an operand, Python list, lower-rank broadcast mask,
      scalar True / False); or a reduction with `out=x` (sum / max / min / prod / argmax along an axis, cumsum);
-  4. collections derived AFTER the call (elementwise / reduce / rechunk / transpose of x: no slices, a known class);
+  4. collections derived AFTER the call (elementwise / reduce / rechunk / transpose, and slices / flips / integer indices /
+     integer-list takes of x: the index is pushed through the Elemwise that carries where= and out=);
   5. computes in a chosen ORDER (x first then the earlier-derived ones; the reverse; everything in one `dask.compute`;
      x twice then the others) under the synchronous or the threaded scheduler;
   6. optionally a second in-place call (x is input and output) and a second round.
@@ -78,9 +79,6 @@ def gen_call(rng, shape, where, dtype, first):
     nd = len(shape)
     n = int(np.prod(shape))
     call = {"style": rng.choice(["np", "da"]), "outform": rng.choice(["kw", "kw", "tuple", "pos"])}
-    if call["style"] == "da" and call["outform"] == "pos":
-        # da.f(a, b, x): the wrapper hands x to elemwise as a third INPUT (probes (c)): np.f(a, b, x) is the supported spelling
-        call["style"] = "np"
     kinds = ["uf2"] * 6 + ["uf1"] * 2
     if where == "none" and first:
         kinds += ["red"] * 3
@@ -143,8 +141,8 @@ def gen_call(rng, shape, where, dtype, first):
     return call
 
 
-DERIVE_BEFORE_EXTRA = ("flip", "T", "rechunk", "sum", "neg", "plus-a", "slice", "slice-of-a", "copy-of-a")
-DERIVE_AFTER = ("affine", "T", "rechunk", "sum", "copy", "plus-a")
+DERIVE_BEFORE_EXTRA = ("flip", "T", "rechunk", "sum", "neg", "plus-a", "slice", "int", "take", "slice-of-a", "copy-of-a")
+DERIVE_AFTER = ("affine", "T", "rechunk", "sum", "copy", "plus-a", "slice", "slice", "flip", "int", "take")
 
 
 def gen_derive(rng, op, shape):
@@ -164,6 +162,13 @@ def gen_derive(rng, op, shape):
         d["index"] = P._enc_index(idx)
     elif op == "flip":
         d["axis"] = rng.randrange(nd)
+    elif op == "int":
+        d["axis"] = rng.randrange(nd)
+        d["i"] = rng.randint(-shape[d["axis"]], shape[d["axis"]] - 1)
+    elif op == "take":
+        d["axis"] = rng.randrange(nd)
+        n = shape[d["axis"]]
+        d["idx"] = [rng.randint(-n, n - 1) for _ in range(rng.randint(1, n + 1))]  # repeats and any order: reading only
     elif op == "rechunk":
         d["chunks"] = [list(c) for c in P.rand_chunks_nd(rng, shape)]
     elif op == "sum":
@@ -227,6 +232,10 @@ def apply_derive(d, env, xp_mod, da_mode):
         return src.copy()
     if op == "flip":
         return src[tuple(slice(None, None, -1) if ax == d["axis"] else slice(None) for ax in range(src.ndim))]
+    if op == "int":
+        return src[tuple(d["i"] if ax == d["axis"] else slice(None) for ax in range(src.ndim))]
+    if op == "take":
+        return src[tuple(list(d["idx"]) if ax == d["axis"] else slice(None) for ax in range(src.ndim))]
     if op == "T":
         return src.T
     if op == "rechunk":
@@ -623,7 +632,7 @@ def shrink(case, sig):
     return cur
 
 
-def check_case(ctx, case, do_shrink=True):
+def check_case(ctx, case, do_shrink=True, seen=None):
     try:
         bad, refusal = run_case(case)
     except Exception as e:  # a harness error must not pass silently
@@ -637,6 +646,11 @@ def check_case(ctx, case, do_shrink=True):
         return True
     sig = signature(case, bad)
     small = case
+    if seen is not None:
+        if sig in seen:
+            ctx.notes["further_failing_scenarios." + sig] = ctx.notes.get("further_failing_scenarios." + sig, 0) + 1
+            return False
+        seen.add(sig)
     if do_shrink:
         try:
             small = shrink(case, sig)
@@ -657,7 +671,7 @@ def search(ctx):
     """Walk the grid xkind × where × (order, scheduler) once; in the thorough tier several times."""
     rng = ctx.rng
     t0 = time.time()
-    budget = ctx.scale(20, 240)
+    budget = ctx.scale(30, 240)  # a safety cap only: the quick grid takes ~8 s on an idle machine
     passes = ctx.scale(1, 12)
     done = 0
     failed = set()
@@ -676,20 +690,17 @@ def search(ctx):
             if done < 2:
                 ctx.sample(case)
             done += 1
-            before = len(ctx.failures)
-            # one report per class is enough: skip shrinking for classes already reported
-            check_case(ctx, case, do_shrink=True)
-            if len(ctx.failures) > before:
-                sig = ctx.failures[-1]["sig"]
-                if sig in failed:
-                    ctx.failures.pop()
-                failed.add(sig)
+            # one shrunk report per class is enough
+            check_case(ctx, case, do_shrink=True, seen=failed)
     ctx.notes["ufunc_scenarios"] = done
     ctx.notes["ufunc_scenario_grid"] = f"{len(XKINDS)} xkinds x {len(WHERES)} where kinds x {len(ORDERS)} (order, scheduler) = {len(cells)} cells per pass"
 
 
 def probes(ctx):
-    """Classes the grid steers around because they fail on the unchanged tree (narrow signatures, reported)."""
+    """Narrow deterministic probes.  (a) slices after where=/out= (fixed in repo bc2ace0), (c) da.f(a, x) with a positional out
+    (fixed in 44087fe) and (d) where=/out= on a 0-d x with a scalar block (fixed in ee894a6) are REGRESSION probes (they must pass;
+    the searches generate these classes too).  (b) other dtypes of out= are registered known findings: the grid keeps x and the
+    operands in one dtype."""
     import dask_array as da
 
     SYNC = {"scheduler": "sync"}
